@@ -1,6 +1,7 @@
 package httpgen
 
 import (
+	"strconv"
 	"strings"
 
 	"google.golang.org/protobuf/compiler/protogen"
@@ -48,13 +49,19 @@ func (g *Generator) generateMockFile(file *protogen.File) error {
 }
 
 // generateFieldExamplesStorage generates storage for field examples.
+//
+// The table covers every message a mock response can contain (the response types of the file's
+// services and, transitively, the message types of their fields, wherever they are declared) and is
+// keyed by mockFieldPath, the key the generated assignments look up.
 func (g *Generator) generateFieldExamplesStorage(gf *protogen.GeneratedFile, file *protogen.File) error {
 	gf.P("// Field examples extracted from proto definitions")
 	gf.P("var fieldExamples = map[string][]string{")
 
-	// Collect all field examples from all messages
-	for _, message := range file.Messages {
-		g.collectMessageFieldExamples(gf, message, "")
+	seen := map[string]bool{}
+	for _, service := range file.Services {
+		for _, method := range service.Methods {
+			g.collectMessageFieldExamples(gf, method.Output, seen)
+		}
 	}
 
 	gf.P("}")
@@ -64,24 +71,32 @@ func (g *Generator) generateFieldExamplesStorage(gf *protogen.GeneratedFile, fil
 }
 
 // collectMessageFieldExamples recursively collects field examples.
-func (g *Generator) collectMessageFieldExamples(gf *protogen.GeneratedFile, message *protogen.Message, prefix string) {
-	messagePath := prefix + string(message.Desc.Name())
+func (g *Generator) collectMessageFieldExamples(
+	gf *protogen.GeneratedFile,
+	message *protogen.Message,
+	seen map[string]bool,
+) {
+	if seen[string(message.Desc.FullName())] {
+		return
+	}
+	seen[string(message.Desc.FullName())] = true
 
 	for _, field := range message.Fields {
 		examples := annotations.GetFieldExamples(field)
 		if len(examples) > 0 {
-			fieldPath := messagePath + "." + string(field.Desc.Name())
-			gf.P(`"`, fieldPath, `": {`)
+			gf.P(strconv.Quote(mockFieldPath(field)), ": {")
 			for _, example := range examples {
-				gf.P(`"`, example, `",`)
+				gf.P(strconv.Quote(example), ",")
 			}
 			gf.P("},")
 		}
 	}
 
-	// Process nested messages
-	for _, nested := range message.Messages {
-		g.collectMessageFieldExamples(gf, nested, messagePath+".")
+	// Process the message types of the fields (map entries included)
+	for _, field := range message.Fields {
+		if field.Message != nil {
+			g.collectMessageFieldExamples(gf, field.Message, seen)
+		}
 	}
 }
 
@@ -166,72 +181,79 @@ func (g *Generator) generateMockMethod(
 
 // generateMockFieldAssignments generates field assignments for a message.
 //
-// visiting holds the full names of the messages on the current path: a message that (directly or
-// indirectly) contains itself is left empty at the point of recursion, so generation terminates.
+// visiting holds the full names of the messages on the current path: a field whose message type
+// (directly or indirectly) contains itself is left unset at the point of recursion, so generation
+// terminates and no half-filled message is produced.
 func (g *Generator) generateMockFieldAssignments(
 	gf *protogen.GeneratedFile,
 	message *protogen.Message,
 	varName string,
 	visiting map[string]bool,
 ) {
-	messageName := string(message.Desc.Name())
 	fullName := string(message.Desc.FullName())
-	if visiting[fullName] {
-		return
-	}
 	visiting[fullName] = true
 	defer delete(visiting, fullName)
 
+	oneofSet := map[string]bool{}
 	for _, field := range message.Fields {
 		fieldName := field.GoName
-		fieldPath := messageName + "." + string(field.Desc.Name())
+		fieldPath := mockFieldPath(field)
 
-		// Generate assignment based on field type
-		switch field.Desc.Kind() {
-		case protoreflect.StringKind:
-			gf.P(
-				varName,
-				".",
-				fieldName,
-				" = selectStringExample(\"",
-				fieldPath,
-				"\", ",
-				g.getDefaultGenerator(field),
-				")",
-			)
-		case protoreflect.Int32Kind, protoreflect.Int64Kind:
-			gf.P(varName, ".", fieldName, " = selectIntExample(\"", fieldPath, "\", ", g.getDefaultValue(field), ")")
-		case protoreflect.BoolKind:
-			gf.P(varName, ".", fieldName, " = selectBoolExample(\"", fieldPath, "\", ", g.getDefaultValue(field), ")")
-		case protoreflect.FloatKind, protoreflect.DoubleKind:
-			gf.P(varName, ".", fieldName, " = selectFloatExample(\"", fieldPath, "\", ", g.getDefaultValue(field), ")")
-		case protoreflect.MessageKind:
-			switch {
-			case field.Desc.IsMap():
-				// Handle map fields
-				g.generateMockMapFieldAssignment(gf, field, varName, visiting)
-			case field.Desc.IsList():
-				gf.P("// TODO: Handle repeated message field ", fieldName)
-			default:
-				gf.P(varName, ".", fieldName, " = &", field.Message.GoIdent, "{}")
-				g.generateMockFieldAssignments(gf, field.Message, varName+"."+fieldName, visiting)
+		switch {
+		case field.Oneof != nil && !field.Oneof.Desc.IsSynthetic():
+			// exactly one member of a oneof can be set: the first one that can be filled
+			if oneofSet[field.Oneof.GoName] {
+				continue
 			}
-		case protoreflect.EnumKind,
-			protoreflect.Sint32Kind,
-			protoreflect.Uint32Kind,
-			protoreflect.Sint64Kind,
-			protoreflect.Uint64Kind,
-			protoreflect.Sfixed32Kind,
-			protoreflect.Fixed32Kind,
-			protoreflect.Sfixed64Kind,
-			protoreflect.Fixed64Kind,
-			protoreflect.BytesKind,
-			protoreflect.GroupKind:
-			gf.P("// TODO: Handle field ", fieldName, " of type ", field.Desc.Kind())
+			oneofSet[field.Oneof.GoName] = g.generateMockOneofAssignment(gf, field, varName, visiting)
+		case field.Desc.IsMap():
+			g.generateMockMapFieldAssignment(gf, field, varName, visiting)
+		case field.Desc.Kind() == protoreflect.MessageKind || field.Desc.Kind() == protoreflect.GroupKind:
+			if field.Desc.IsList() {
+				gf.P("// TODO: Handle repeated message field ", fieldName)
+				continue
+			}
+			if visiting[string(field.Message.Desc.FullName())] {
+				continue
+			}
+			gf.P(varName, ".", fieldName, " = &", field.Message.GoIdent, "{}")
+			g.generateMockFieldAssignments(gf, field.Message, varName+"."+fieldName, visiting)
 		default:
-			gf.P("// TODO: Handle field ", fieldName, " of type ", field.Desc.Kind())
+			expr := g.mockScalarExpr(gf, field, fieldPath)
+			switch {
+			case field.Desc.IsList():
+				gf.P(varName, ".", fieldName, " = []", g.mockGoType(gf, field), "{", expr, "}")
+			case field.Desc.HasPresence() && field.Desc.Kind() != protoreflect.BytesKind:
+				gf.P(varName, ".", fieldName, " = mockPtr(", expr, ")")
+			default:
+				gf.P(varName, ".", fieldName, " = ", expr)
+			}
 		}
 	}
+}
+
+// generateMockOneofAssignment sets one member of a oneof; it reports whether it emitted one.
+func (g *Generator) generateMockOneofAssignment(
+	gf *protogen.GeneratedFile,
+	field *protogen.Field,
+	varName string,
+	visiting map[string]bool,
+) bool {
+	wrapper := gf.QualifiedGoIdent(field.GoIdent)
+	target := varName + "." + field.Oneof.GoName
+	if field.Desc.Kind() != protoreflect.MessageKind && field.Desc.Kind() != protoreflect.GroupKind {
+		gf.P(target, " = &", wrapper, "{", field.GoName, ": ", g.mockScalarExpr(gf, field, mockFieldPath(field)), "}")
+		return true
+	}
+	if visiting[string(field.Message.Desc.FullName())] {
+		return false
+	}
+	gf.P("{")
+	gf.P("oneofValue := &", field.Message.GoIdent, "{}")
+	g.generateMockFieldAssignments(gf, field.Message, "oneofValue", visiting)
+	gf.P(target, " = &", wrapper, "{", field.GoName, ": oneofValue}")
+	gf.P("}")
+	return true
 }
 
 // generateMockMapFieldAssignment generates code to populate a map field with sample data.
@@ -266,16 +288,73 @@ func (g *Generator) generateMockMapFieldAssignment(
 			gf.QualifiedGoIdent(valueField.Message.GoIdent),
 			")",
 		)
+		if visiting[string(valueField.Message.Desc.FullName())] {
+			return
+		}
 		gf.P(varName, ".", fieldName, "[", sampleKey, "] = &", valueField.Message.GoIdent, "{}")
 		// Populate the value message fields
 		mapValueVar := varName + "." + fieldName + "[" + sampleKey + "]"
 		g.generateMockFieldAssignments(gf, valueField.Message, mapValueVar, visiting)
 	} else {
-		// Value is a scalar type
-		valueType := g.getGoTypeScalar(valueField)
-		gf.P(varName, ".", fieldName, " = make(map[", keyType, "]", valueType, ")")
-		defaultValue := g.getDefaultValue(valueField)
-		gf.P(varName, ".", fieldName, "[", sampleKey, "] = ", defaultValue)
+		// Value is a scalar, enum or bytes type; examples declared on a map field describe the
+		// whole map, so the entry takes the default of its kind
+		gf.P(varName, ".", fieldName, " = make(map[", keyType, "]", g.mockGoType(gf, valueField), ")")
+		gf.P(varName, ".", fieldName, "[", sampleKey, "] = ", g.mockScalarExpr(gf, valueField, ""))
+	}
+}
+
+// mockFieldPath is the key of a field in the generated example table: the message's full name
+// and the field name, which is unique across packages and nesting levels.
+func mockFieldPath(field *protogen.Field) string {
+	return string(field.Parent.Desc.FullName()) + "." + string(field.Desc.Name())
+}
+
+// mockGoType returns the Go type of one element of a scalar, enum or bytes field.
+func (g *Generator) mockGoType(gf *protogen.GeneratedFile, field *protogen.Field) string {
+	if field.Desc.Kind() == protoreflect.EnumKind {
+		return gf.QualifiedGoIdent(field.Enum.GoIdent)
+	}
+	return g.getGoTypeScalar(field)
+}
+
+// mockScalarExpr returns a Go expression of the field's element type that evaluates to one of the
+// field's declared examples (parsed to that type) or, without usable examples, to a default.
+func (g *Generator) mockScalarExpr(gf *protogen.GeneratedFile, field *protogen.Field, fieldPath string) string {
+	path := strconv.Quote(fieldPath)
+	goType := g.mockGoType(gf, field)
+	switch field.Desc.Kind() {
+	case protoreflect.StringKind:
+		return "selectStringExample(" + path + ", " + g.getDefaultGenerator(field) + ")"
+	case protoreflect.BytesKind:
+		return "[]byte(selectStringExample(" + path + ", " + g.getDefaultGenerator(field) + "))"
+	case protoreflect.BoolKind:
+		return "selectBoolExample(" + path + ", true)"
+	case protoreflect.Int32Kind, protoreflect.Sint32Kind, protoreflect.Sfixed32Kind:
+		return goType + "(selectIntExample(" + path + ", 32, 42))"
+	case protoreflect.Int64Kind, protoreflect.Sint64Kind, protoreflect.Sfixed64Kind:
+		return "selectIntExample(" + path + ", 64, 42)"
+	case protoreflect.Uint32Kind, protoreflect.Fixed32Kind:
+		return goType + "(selectUintExample(" + path + ", 32, 42))"
+	case protoreflect.Uint64Kind, protoreflect.Fixed64Kind:
+		return "selectUintExample(" + path + ", 64, 42)"
+	case protoreflect.FloatKind:
+		return "float32(selectFloatExample(" + path + ", 32, 3.14))"
+	case protoreflect.DoubleKind:
+		return "selectFloatExample(" + path + ", 64, 3.14)"
+	case protoreflect.EnumKind:
+		valueMap := gf.QualifiedGoIdent(protogen.GoIdent{
+			GoName:       field.Enum.GoIdent.GoName + "_value",
+			GoImportPath: field.Enum.GoIdent.GoImportPath,
+		})
+		first := "0"
+		if len(field.Enum.Values) > 0 {
+			first = strconv.Itoa(int(field.Enum.Values[0].Desc.Number()))
+		}
+		return goType + "(selectEnumExample(" + path + ", " + valueMap + ", " + first + "))"
+	case protoreflect.MessageKind, protoreflect.GroupKind:
+		return "nil"
+	default:
+		return "nil"
 	}
 }
 
@@ -359,34 +438,6 @@ func (g *Generator) getDefaultGenerator(field *protogen.Field) string {
 	}
 }
 
-// getDefaultValue returns a default value for a field.
-func (g *Generator) getDefaultValue(field *protogen.Field) string {
-	switch field.Desc.Kind() {
-	case protoreflect.Int32Kind, protoreflect.Int64Kind:
-		return "42"
-	case protoreflect.BoolKind:
-		return "true"
-	case protoreflect.FloatKind, protoreflect.DoubleKind:
-		return "3.14"
-	case protoreflect.EnumKind,
-		protoreflect.Sint32Kind,
-		protoreflect.Uint32Kind,
-		protoreflect.Sint64Kind,
-		protoreflect.Uint64Kind,
-		protoreflect.Sfixed32Kind,
-		protoreflect.Fixed32Kind,
-		protoreflect.Sfixed64Kind,
-		protoreflect.Fixed64Kind,
-		protoreflect.StringKind,
-		protoreflect.BytesKind,
-		protoreflect.MessageKind,
-		protoreflect.GroupKind:
-		return `""`
-	default:
-		return `""`
-	}
-}
-
 // generateMockHelpers generates helper functions for mock data generation.
 func (g *Generator) generateMockHelpers(gf *protogen.GeneratedFile) {
 	g.generateExampleSelectors(gf)
@@ -406,12 +457,13 @@ func (g *Generator) generateExampleSelectors(gf *protogen.GeneratedFile) {
 	gf.P("}")
 	gf.P()
 
-	// Int example selector
+	// The typed selectors start at a random example and take the first one that parses to the
+	// field's type, so an unusable entry in the list never hides the usable ones.
 	gf.P("// selectIntExample selects a random example or returns a default value.")
-	gf.P("func selectIntExample(fieldPath string, defaultValue int64) int64 {")
-	gf.P("if examples, ok := fieldExamples[fieldPath]; ok && len(examples) > 0 {")
-	gf.P("example := examples[rand.Intn(len(examples))]")
-	gf.P("if v, err := strconv.ParseInt(example, 10, 64); err == nil {")
+	gf.P("func selectIntExample(fieldPath string, bitSize int, defaultValue int64) int64 {")
+	gf.P("examples := fieldExamples[fieldPath]")
+	gf.P("for i, start := 0, rand.Intn(len(examples)+1); i < len(examples); i++ {")
+	gf.P("if v, err := strconv.ParseInt(examples[(start+i)%len(examples)], 10, bitSize); err == nil {")
 	gf.P("return v")
 	gf.P("}")
 	gf.P("}")
@@ -419,12 +471,23 @@ func (g *Generator) generateExampleSelectors(gf *protogen.GeneratedFile) {
 	gf.P("}")
 	gf.P()
 
-	// Bool example selector
+	gf.P("// selectUintExample selects a random example or returns a default value.")
+	gf.P("func selectUintExample(fieldPath string, bitSize int, defaultValue uint64) uint64 {")
+	gf.P("examples := fieldExamples[fieldPath]")
+	gf.P("for i, start := 0, rand.Intn(len(examples)+1); i < len(examples); i++ {")
+	gf.P("if v, err := strconv.ParseUint(examples[(start+i)%len(examples)], 10, bitSize); err == nil {")
+	gf.P("return v")
+	gf.P("}")
+	gf.P("}")
+	gf.P("return defaultValue")
+	gf.P("}")
+	gf.P()
+
 	gf.P("// selectBoolExample selects a random example or returns a default value.")
 	gf.P("func selectBoolExample(fieldPath string, defaultValue bool) bool {")
-	gf.P("if examples, ok := fieldExamples[fieldPath]; ok && len(examples) > 0 {")
-	gf.P("example := examples[rand.Intn(len(examples))]")
-	gf.P("if v, err := strconv.ParseBool(example); err == nil {")
+	gf.P("examples := fieldExamples[fieldPath]")
+	gf.P("for i, start := 0, rand.Intn(len(examples)+1); i < len(examples); i++ {")
+	gf.P("if v, err := strconv.ParseBool(examples[(start+i)%len(examples)]); err == nil {")
 	gf.P("return v")
 	gf.P("}")
 	gf.P("}")
@@ -432,16 +495,33 @@ func (g *Generator) generateExampleSelectors(gf *protogen.GeneratedFile) {
 	gf.P("}")
 	gf.P()
 
-	// Float example selector
 	gf.P("// selectFloatExample selects a random example or returns a default value.")
-	gf.P("func selectFloatExample(fieldPath string, defaultValue float64) float64 {")
-	gf.P("if examples, ok := fieldExamples[fieldPath]; ok && len(examples) > 0 {")
-	gf.P("example := examples[rand.Intn(len(examples))]")
-	gf.P("if v, err := strconv.ParseFloat(example, 64); err == nil {")
+	gf.P("func selectFloatExample(fieldPath string, bitSize int, defaultValue float64) float64 {")
+	gf.P("examples := fieldExamples[fieldPath]")
+	gf.P("for i, start := 0, rand.Intn(len(examples)+1); i < len(examples); i++ {")
+	gf.P("if v, err := strconv.ParseFloat(examples[(start+i)%len(examples)], bitSize); err == nil {")
 	gf.P("return v")
 	gf.P("}")
 	gf.P("}")
 	gf.P("return defaultValue")
+	gf.P("}")
+	gf.P()
+
+	gf.P("// selectEnumExample selects a random example (an enum value name) or returns a default value.")
+	gf.P("func selectEnumExample(fieldPath string, values map[string]int32, defaultValue int32) int32 {")
+	gf.P("examples := fieldExamples[fieldPath]")
+	gf.P("for i, start := 0, rand.Intn(len(examples)+1); i < len(examples); i++ {")
+	gf.P("if v, ok := values[examples[(start+i)%len(examples)]]; ok {")
+	gf.P("return v")
+	gf.P("}")
+	gf.P("}")
+	gf.P("return defaultValue")
+	gf.P("}")
+	gf.P()
+
+	gf.P("// mockPtr returns a pointer to v, for fields with explicit presence.")
+	gf.P("func mockPtr[T any](v T) *T {")
+	gf.P("return &v")
 	gf.P("}")
 	gf.P()
 }
